@@ -11,3 +11,28 @@ def square(x):
 
 def add(a, b=0):
     return a + b
+
+
+def _me():
+    import pyworkers.worker as w
+    import gc
+    # the worker object running this target in the child: the one whose is_child is True
+    for o in gc.get_objects():
+        try:
+            if isinstance(o, w.Worker) and o._started and o.is_child:
+                return o
+        except Exception:
+            continue
+    return None
+
+
+def set_state_and_return(x):
+    me = _me()
+    me.user_state = ('child', x)
+    return x + 1
+
+
+def set_state_and_raise(x):
+    me = _me()
+    me.user_state = ('child', x)
+    raise ValueError('boom', x)
